@@ -48,7 +48,7 @@ EXACT = {"stl_ascii", "3mf", "dict", "dict64"}
 DIGITS = {"obj": 8, "off": 10}
 INDEXED = {"ply", "off", "obj", "glb", "gltf", "3mf", "dict", "dict64"}  # dae goes through pycollada which re-indexes
 SCENE_FORMATS = ["glb", "gltf", "3mf"]
-FLAT_SCENE_FORMATS = ["stl", "ply"]  # export_scene bakes scene.to_mesh() for these  # the DAE exporter is registered for single meshes only (scene.export raises ValueError)
+FLAT_SCENE_FORMATS = ["stl", "ply", "obj"]  # the triangles of every instance are baked into one file (to_mesh / dump)  # the DAE exporter is registered for single meshes only (scene.export raises ValueError)
 
 
 class DictResolver(trimesh.resolvers.Resolver):
@@ -332,6 +332,9 @@ def build_scene(spec):
         s.graph.update(frame_to="p", frame_from=s.graph.base_frame, matrix=mats[0])
         s.add_geometry(tet, node_name="n0", geom_name="tet", parent_node_name="p", transform=mats[1])
         return s
+    if spec.get("cloud_first"):
+        # a geometry that has vertices but no faces (a point cloud), stored before the meshes
+        s.add_geometry(trimesh.PointCloud(rs.uniform(-1, 1, (5, 3))), node_name="npc", geom_name="aaa_cloud", transform=mats[3])
     if spec.get("empty_first"):
         # an empty geometry referenced by a node, stored before the others
         s.add_geometry(trimesh.Trimesh(), node_name="ne", geom_name="aaa_empty", transform=mats[1])
@@ -359,7 +362,7 @@ def b_scene(case, ctx):
         s = build_scene(case["scene"])
         fmt = case["fmt"]
         sig = f"C08.scene|{fmt}"
-        ctx.note(nontrivial=True, cls=[f"scene:{fmt}", f"scene:shape={case['scene'].get('shape', 'full')}"])
+        ctx.note(nontrivial=True, cls=[f"scene:{fmt}", f"scene:shape={case['scene'].get('shape', 'full')}"] + (["scene:vertices_only_geometry_first"] if case["scene"].get("cloud_first") and case["scene"].get("shape", "full") == "full" else []))
         want = placed(s)
         h0 = s.__hash__()
         g0 = {k: source_state(g) for k, g in s.geometry.items()}
@@ -377,7 +380,7 @@ def b_scene(case, ctx):
             scale = max(1.0, np.abs(w).max())
             key = lambda a: a[np.lexsort(np.round(a.reshape((-1, 9)) / (1e-4 * scale)).T[::-1])]  # noqa
             d = np.abs(key(gt) - key(w)).max() if len(w) else 0.0
-            check(d <= 4e-6 * scale, sig + "|placement", f"baked triangles differ from the placed source triangles by {d:.3g} (scale {scale:.3g})")
+            check(d <= (4e-6 if fmt != "obj" else 1e-7) * scale + (1e-8 if fmt == "obj" else 0.0), sig + "|placement", f"baked triangles differ from the placed source triangles by {d:.3g} (scale {scale:.3g})")
             return
         check(isinstance(loaded, trimesh.Scene), sig + "|not_a_scene", type(loaded).__name__)
         got = placed(loaded)
@@ -413,6 +416,32 @@ MESH_FORMATS = {
     "dict": [{}],
     "dict64": [{}],
 }
+
+
+@body("C08.stl_multi")
+def b_stl_multi(case, ctx):
+    """several ascii STL exports written one after the other into one file (what slicers and CAD tools produce): every
+    solid comes back, whatever the solids are called"""
+    rs = np.random.RandomState(case["seed"])
+    parts, blobs = [], []
+    for k, (kind, name) in enumerate(case["parts"]):
+        V, F = gmesh.build({"parts": [{"kind": kind}]})
+        m = trimesh.Trimesh(V + rs.uniform(-1e-2, 1e-2, V.shape) + [7.0 * k, 0, 0], F, process=False)
+        if name is not None:
+            m.metadata["name"] = name
+        parts.append(m)
+        blobs.append(as_bytes(m.export(file_type="stl_ascii")))
+    names = [n for _, n in case["parts"]]
+    ctx.note(nontrivial=len(parts) >= 2, cls=["stl_multi"] + (["stl_multi:repeated_solid_name"] if len({n for n in names if n}) < len([n for n in names if n]) else []))
+    data = b"".join(blobs)
+    loaded = do_load(data, "stl_ascii", case["entry"], case["via_path"])
+    geoms = [g for g, _ in flatten(loaded)]
+    check(len(geoms) == len(parts), "C08.stl_multi|solid_count", f"{len(geoms)} geometries loaded from {len(parts)} solids named {names}")
+    want = np.vstack([np.asarray(m.triangles) for m in parts])
+    got = np.vstack([np.asarray(g.triangles) for g in geoms]) if geoms else np.zeros((0, 3, 3))
+    check(got.shape == want.shape, "C08.stl_multi|triangle_count", f"{got.shape} vs {want.shape}")
+    key = lambda a: a[np.lexsort(np.round(a.reshape((-1, 9)) * 1e4).T[::-1])]  # noqa
+    check(np.abs(key(got) - key(want)).max() <= 1e-9 * np.abs(want).max(), "C08.stl_multi|triangles", "the loaded triangles are not the exported ones")
 
 
 # ------------------------------------------------------------------ voxel grids (binvox) and paths (dxf / svg / dict)
@@ -653,7 +682,14 @@ def scene_case(draw):
     fmt = draw(st.sampled_from(SCENE_FORMATS + FLAT_SCENE_FORMATS))
     kw = draw(st.sampled_from(MESH_FORMATS[fmt])) if fmt in SCENE_FORMATS else {}
     shape = draw(st.sampled_from(["full", "full", "single", "single_under_parent"]))
-    return {"scene": {"seed": draw(st.integers(0, 10**6)), "edges": edges, "empty_first": draw(st.booleans()), "shape": shape}, "fmt": fmt, "kw": kw, "entry": draw(st.sampled_from(["load", "load_scene"]))}
+    return {"scene": {"seed": draw(st.integers(0, 10**6)), "edges": edges, "empty_first": draw(st.booleans()), "cloud_first": draw(st.booleans()), "shape": shape}, "fmt": fmt, "kw": kw, "entry": draw(st.sampled_from(["load", "load_scene"]))}
+
+
+@st.composite
+def stl_multi_case(draw):
+    name = st.sampled_from([None, "part", "part", "body", "", "a b", "part_1"])
+    parts = draw(st.lists(st.tuples(st.sampled_from(["tetra", "box", "octa"]), name), min_size=1, max_size=4))
+    return {"seed": draw(st.integers(0, 10**6)), "parts": [list(p) for p in parts], "entry": draw(st.sampled_from(["load", "load_scene"])), "via_path": draw(st.booleans())}
 
 
 @st.composite
@@ -727,7 +763,8 @@ def s_big(ctx):
 def s_voxel_path(ctx):
     ctx.given("C08.voxel", voxel_case(), n={"quick": 600, "thorough": 20000})
     ctx.given("C08.path", path_case(), n={"quick": 600, "thorough": 20000})
+    ctx.given("C08.stl_multi", stl_multi_case(), n={"quick": 300, "thorough": 6000})
 
 
 REQUIRED_CLASSES["C08"] = ["fmt:stl", "fmt:ply", "fmt:obj", "fmt:glb", "fmt:gltf", "fmt:3mf", "fmt:dae", "fmt:off", "fmt:dict64", "fmt:stl_ascii", "scene:glb", "scene:3mf", "points:xyz:colors=True", "points:xyz:colors=False",
-                           "scene:stl", "scene:ply", "scene:shape=single", "scene:shape=single_under_parent", "voxel:noncubic", "voxel:run>=510", "voxel:run_is_multiple_of_255", "path:dxf", "path:svg", "path:dict", "path:arc", "path:circle"]
+                           "scene:stl", "scene:ply", "scene:obj", "scene:vertices_only_geometry_first", "stl_multi:repeated_solid_name", "scene:shape=single", "scene:shape=single_under_parent", "voxel:noncubic", "voxel:run>=510", "voxel:run_is_multiple_of_255", "path:dxf", "path:svg", "path:dict", "path:arc", "path:circle"]
